@@ -248,6 +248,11 @@ impl PacketSender {
     // Responds to a receive window acknowledgement. All packet data beyond the new receive window
     // is forgotten, thereby freeing transfer window & allocation space for new packets.
     pub fn acknowledge(&mut self, receiver_base_id: u32) {
+        if !packet_id::is_valid(receiver_base_id) {
+            // Not a packet ID: the window walk below would never reach it
+            return;
+        }
+
         let receiver_delta = packet_id::sub(receiver_base_id, self.base_id);
         let span = packet_id::sub(self.next_id, self.base_id);
 
